@@ -123,6 +123,12 @@ var c06faults = []string{
 	"func() { var r; r = func(a, b, c, d, e, f, g, h) { x1 := a; x2 := b; x3 := c; try { return 1 + r(x1, x2, x3, d, e, f, g, h) } catch ee { return -1 } }; return r(1, 2, 3, 4, 5, 6, 7, 8) }()",
 	"func() { var r; r = func(a, b, c, d, e, f, g, h, i, j, k, l) { try { return [a, b, c, d, e, f, g, h, i, j, k, l, r(a, b, c, d, e, f, g, h, i, j, k, l)] } catch ee { return -1 } finally { zero = 0 } }; return r(1, 2, 3, 4, 5, 6, 7, 8, 9, 10, 11, 12) }()",
 	"func() { var r; r = func() { try { throw \"t\" } catch e { return r() + 1 } }; return r() }()",
+	// the frame limit is reached with a try/catch in every activation: the deepest frame catches the overflow itself
+	"func() { var r; r = func() { try { return r() + 1 } catch e { return 0 } }; return r() }()",
+	"func() { var r; r = func(n) { try { return r(n + 1) + 1 } catch e { throw e } }; return r(0) }()",
+	"func() { var r; r = func(n) { try { return r(n + 1) + 1 } catch e { return n } finally { zero = 0 } }; return r(0) }()",
+	"func() { var r; r = func(n) { try { r(n + 1) } catch e { zero = n } return n }; return r(0) }()",
+	"func() { var r; r = func(n) { for { try { return r(n + 1) } catch e { break } }; return n }; return r(0) }()",
 	"throwing()",
 }
 
